@@ -315,7 +315,22 @@ fn case(rng: &mut Rng, rep: &mut Report) {
         // the state accumulates: compare the delta with a tolerance for cancellation at the accumulated magnitude
         let acc = if mode_electric { i_el.map(|i| before[i].abs()) } else { i_liq.map(|i| before[i].abs()) }.unwrap_or(0.0);
         let slack = 1e-12 * acc.max(1.0);
-        if d_obs < elo - slack || d_obs > ehi + slack {
+        // the bundled models are random forests: piecewise constant with cells far narrower than the five samples of the
+        // band. before calling an energy wrong, look for it among the model's values on a fine scan of the same +-0.1 %
+        // speed window (2001 points): the energy is right if some speed in the window explains it
+        let explained_by_fine_scan = |obs: f64| -> bool {
+            (-1000..=1000).any(|i| {
+                let f = 1.0 + i as f64 * 1e-6;
+                match rec.prediction_model.predict((Speed::new(speeds[e] * f), su), (Grade::new(g), gu)) {
+                    Ok((r, _)) => {
+                        let want = r.as_f64() * k;
+                        (obs - want).abs() <= 1e-3 * want.abs() + 1e-15 + slack
+                    }
+                    Err(_) => false,
+                }
+            })
+        };
+        if (d_obs < elo - slack || d_obs > ehi + slack) && !explained_by_fine_scan(d_obs) {
             rep.violate(
                 &format!("C08|{vname}|edge-energy-off|{}", if mcfg.interpolate { "interpolated" } else { "smartcore" }),
                 format!("E1 edge {e} (len {} m, speed {} {su}, grade {g} {gu}): energy {d_obs:+}, expected within [{elo}, {ehi}] (rate band {:?}, adjustment {}, distance {dist_in_rate_unit})", lens_m[e], speeds[e], band, adj(mcfg)),
